@@ -132,26 +132,175 @@ def kvline(o):
 
 
 def parse_q(s):
+    """query list; None for anything that is not a subdivision index of the motion being checked
+    (? unknown state, x / p constrained extras, s = a replaced checker was asked, o<j> = a point of the other motion)."""
     if s in ("-", ""):
         return []
-    return [None if x in ("?", "x", "p") else int(x) for x in s.split(",")]
+    return [int(x) if x.isdigit() else None for x in s.split(",")]
+
+
+RECONF_OPS = ("swapvc", "setfrac", "setfac", "setup", "setmv", "resetcnt")
+
+
+def foreign_query(qraw):
+    """the two round-10 defect classes, named precisely"""
+    toks = [] if qraw in ("-", "") else qraw.split(",")
+    if "s" in toks:
+        return ("a StateValidityChecker that is no longer installed was asked (%d of %d questions): the validator kept the "
+                "checker it saw earlier instead of the SpaceInformation's current one" % (toks.count("s"), len(toks)))
+    o = [x for x in toks if x.startswith("o")]
+    if o:
+        return ("isValid was handed point %s of the OTHER motion (the call interleaved at a query point): the state being "
+                "checked is shared between checkMotion calls" % o[0][1:])
+    return None
+
+
+def parse_nest(t):
+    """nest <k> <same|thread> <form> <st> <st> <counted hint> <counted inv> -> dict"""
+    k, mode, form = int(t[1]), t[2], t[3]
+    rest = t[4:]
+    na = int(rest[0])
+    a = rest[:1 + na]
+    rest = rest[1 + na:]
+    nb = int(rest[0])
+    b = rest[:1 + nb]
+    rest = rest[1 + nb:]
+    nh = int(rest[0])
+    hint = [int(x) for x in rest[1:1 + nh]]
+    rest = rest[1 + nh:]
+    ni = int(rest[0])
+    inv = set(int(x) for x in rest[1:1 + ni])
+    return {"k": k, "mode": mode, "form": form, "states": a + b, "hint": hint, "inv": inv}
+
+
+def cnt_of(kv):
+    c0, c1 = kv["cnt"].split("->")
+    a0, b0 = map(int, c0.split("/"))
+    a1, b1 = map(int, c1.split("/"))
+    return (a0, b0), (a1, b1)
+
+
+def cm_oracle(C, op, states, kv, inv, box, nopath, i, mid=(0, 0), segs_i=None):
+    """ONE checkMotion call (cm2 | cm3 | cm3n on the pair `states` = token list of the two states) judged against the
+    property, on the implementation's output `kv` only.  C: cfg (CURRENT configuration), tree, nreals, hinted, stats,
+    pair_verdicts.  inv: the predicate in force for this call; mid: counter increments of a call nested inside this
+    one.  Returns a failure text or None."""
+    cfg, tree, nreals, hinted, stats, pair_verdicts = C["cfg"], C["tree"], C["nreals"], C["hinted"], C["stats"], C["pair_verdicts"]
+    fq = foreign_query(kv.get("q", "-"))
+    if fq:
+        return fq
+    if cfg["space"] in CSPACES:
+        stats["_cspace"] = cfg["space"]
+        return constrained_oracle(op, [op] + states, kv, inv, stats, i, pair_verdicts, mid)
+    n = int(kv["n"])
+    q = parse_q(kv["q"])
+    v = int(kv["v"])
+    stats["calls"] += 1
+    if n >= 3:
+        stats["nontrivial"] += 1
+    if box:
+        inv = set(x for x in parse_q(kv.get("inv", "-")) if x is not None)
+        stats["box"] += 1
+    (a0, b0), (a1, b1) = cnt_of(kv)
+    d = (a1 - a0 - mid[0], b1 - b0 - mid[1])
+    if nopath:
+        # no curve exists: the call must answer false and (F75) count one invalid motion; the lastValid clause
+        # does not apply (nothing to interpolate), neither form may claim validity
+        stats["nopath"] += 1
+        if v != 0:
+            return "%s returned 1 although getPath found no path between the states" % op
+        if d == (0, 0):
+            stats["f75"].append(i)      # reported by judge() as its own narrow record (F75)
+            stats["narrow"].append((i, "dubins3d-nopath-uncounted"))
+        elif d != (0, 1):
+            return "%s returned 0 (no path) and advanced valid/invalid counters by +%d/+%d" % (op, d[0], d[1])
+        return None
+    if int(kv["amb"]) > 0:
+        stats["ambiguous"] += 1   # two subdivision points are the same state: the index predicate is not
+        return None               # a predicate on states; excluded (counted)
+    a, b = parse_states(states, nreals)
+    if not hinted:
+        want_n = spec_seg(tree, cfg, a, b)
+        if n != want_n:
+            return ("validSegmentCount=%d, factor*ceil(distance/longestValidSegment) (max over components) under the CURRENT "
+                    "fraction/factors is %d" % (n, want_n))
+    elif segs_i is not None:
+        dist, L = segs_i
+        want_n = cfg["f"][0] * int(math.ceil(dist / L))
+        if n != want_n:
+            return "validSegmentCount=%d, factor*ceil(distance/longestValidSegment) is %d" % (n, want_n)
+    idx = list(range(1, n + 1)) if n >= 1 else [0]
+    if any(x is None for x in q):
+        return "isValid was asked about a state that is neither s2 nor interpolate(s1,s2,j/n) for any j"
+    if any(x not in idx for x in q):
+        return "isValid was asked about subdivision index %s outside [1,%d]" % ([x for x in q if x not in idx][0], n)
+    invalid_here = [j for j in idx if j in inv]
+    ev = 0 if invalid_here else 1
+    if v != ev:
+        return "%s returned %d but subdivision points %s are %s" % (
+            op, v, invalid_here[:4] if invalid_here else "1..%d" % n, "invalid" if invalid_here else "all valid")
+    if ev == 1 and set(q) != set(idx):
+        return "valid verdict although subdivision point(s) %s were never checked" % sorted(set(idx) - set(q))[:4]
+    key = (" ".join(states), frozenset(inv), n)
+    pair_verdicts.setdefault(key, {})[op] = v
+    if len(set(pair_verdicts[key].values())) > 1:
+        return "the two forms of checkMotion disagree on the same pair and predicate: %s" % pair_verdicts[key]
+    if op in ("cm3", "cm3n"):
+        if ev == 1:
+            if kv["lv"] != "untouched" or kv["lvs"] not in ("untouched", "null"):
+                return "lastValid was written although the motion is valid (lv=%s lvs=%s)" % (kv["lv"], kv["lvs"])
+        elif n == 0:
+            # zero-length motion, end state invalid: one point, so the last valid fraction is 0 and the state is
+            # interpolate(s1,s2,0) = s1.  The former as-coded value (double)(0-1)/(double)0 = -inf is reported under its own
+            # narrow record (F124, fixed in /repo e0f5863f3: nothing suppresses it any more); any other wrong value fails too.
+            stats["n0_invalid"] += 1
+            if kv["lv"] == "untouched":
+                return "motion invalid (s1 == s2, end state invalid) but lastValid.second was not written"
+            if kv["lv"] == NEG_INF_BITS:
+                stats["narrow"].append((i, "n0-fraction-minus-infinity"))
+            elif kv["lv"] != f2bits(0.0):
+                return "zero-length motion with an invalid end state: last-valid fraction %r, must be 0" % bits2f(kv["lv"])
+            if op == "cm3" and kv["lvs"] != "eq":
+                return ("s1 == s2 with an invalid end state: lastValid.first is not interpolate(s1,s2,lastValid.second) "
+                        "(lvs=%s): the returned last-valid state is not a state of the motion" % kv["lvs"])
+        else:
+            js = invalid_here[0]
+            if kv["lv"] == "untouched":
+                return "motion invalid but lastValid.second was not written"
+            f = bits2f(kv["lv"])
+            if not (0.0 <= f < 1.0):
+                return "last-valid fraction %r outside [0,1)" % f
+            if kv["lv"] != f2bits((js - 1) / n):
+                return ("last-valid fraction %r; points 1..%d are valid and %d is not, so it must be %d/%d"
+                        % (f, js - 1, js, js - 1, n))
+            if op == "cm3" and kv["lvs"] != "eq":
+                return "lastValid.first is not interpolate(s1,s2,lastValid.second) (lvs=%s)" % kv["lvs"]
+    if d != ((1, 0) if v else (0, 1)):
+        return ("%s returned %d and advanced valid/invalid counters by +%d/+%d (must be exactly one, by one)"
+                % (op, v, d[0], d[1]))
+    return None
 
 
 def oracle(script, out, segs=None):
     """the property, evaluated on what the real code printed.  Returns (None | (op index, what), stats).
     `segs`: for hinted spaces, dict line-index -> (dist, L) measured by the harness' `seg` op, to check the
-    segment count formula."""
-    cfg = parse_header(script[0])
+    segment count formula.  The oracle follows the CURRENT configuration of the SpaceInformation: the predicate of the
+    checker installed last, the fraction as of the last setup(), the factors as set last, the counters of the validator
+    installed last."""
+    cfg = dict(parse_header(script[0]))
+    cfg["f"] = list(cfg["f"])
+    pend_frac = cfg["frac"]
     tree, nreals, _nf, hinted = space_info(cfg)
     stats = {"n0_invalid": 0, "ambiguous": 0, "calls": 0, "nontrivial": 0, "nopath": 0, "f75": [], "box": 0, "gms": 0,
-             "narrow": [], "constrained": 0}
+             "narrow": [], "constrained": 0, "nested_run": 0, "nested_not_reached": 0, "reconf": 0}
+    C = {"cfg": cfg, "tree": tree, "nreals": nreals, "hinted": hinted, "stats": stats, "pair_verdicts": {}}
     if len(out) < len(script) - 1:
         return (len(out), "implementation stopped early (crash or sanitizer report)"), stats
     inv = set()
     box = False          # geometric predicate: the invalid set of each call is the harness' truth table (inv= token)
     nopath = False       # Dubins3D: getPath found no path for the pairs that follow
     prev_cnt = None
-    pair_verdicts = {}   # (states text, frozenset(inv)) -> {form: v}
+    nest = None          # armed nested call
     for i, line in enumerate(script[1:]):
         o = out[i]
         t = line.split()
@@ -161,6 +310,30 @@ def oracle(script, out, segs=None):
         if op == "invalid":
             box = t[1] == "box"
             inv = set() if box else set(int(x) for x in t[2:])
+            continue
+        if op in RECONF_OPS:
+            stats["reconf"] += 1
+            if o != "ok":
+                return (i, "%s answered %r" % (op, o)), stats
+            if op == "swapvc":
+                inv, box = set(), False                 # a new checker object: the empty predicate
+            elif op == "setfrac":
+                pend_frac = bits2f(t[1])                # read by setup() only
+            elif op == "setfac":
+                if int(t[1]) < len(cfg["f"]):
+                    cfg["f"][int(t[1])] = int(t[2])     # takes effect at once
+            elif op == "setup":
+                cfg["frac"] = pend_frac
+            elif op == "setmv":
+                prev_cnt = (0, 0)                       # a new validator object: fresh counters
+                if t[1] == "default":
+                    cfg["frac"] = pend_frac             # (installed by setup())
+                cfg["validator"] = t[1]
+            elif op == "resetcnt":
+                prev_cnt = (0, 0)
+            continue
+        if op == "nest":
+            nest = parse_nest(t)
             continue
         if op == "gms":
             f = gms_oracle(t, o)
@@ -185,6 +358,8 @@ def oracle(script, out, segs=None):
             bad = [k for k in range(count) if not flags[k]]
             ev = 0 if bad else 1
             q2, q3 = parse_q(kv["q2"]), parse_q(kv["q3"])
+            if "s" in kv["q2"].split(",") + kv["q3"].split(","):
+                return (i, foreign_query("s")), stats
             if int(kv["v2"]) != ev:
                 return (i, "checkMotion(states,%d) returned %s, states valid: %s" % (count, kv["v2"], not bad)), stats
             if int(kv["v3"]) != ev:
@@ -205,118 +380,47 @@ def oracle(script, out, segs=None):
             if count >= 3:
                 stats["nontrivial"] += 1
             continue
-        # cm2 / cm3 / cm3n
-        kv = kvline(o)
-        if cfg["space"] in CSPACES:
-            stats["_cspace"] = cfg["space"]
-            f = constrained_oracle(op, t, kv, inv, stats, i, pair_verdicts)
-            c1 = kv["cnt"].split("->")[1]
-            if prev_cnt is not None and tuple(map(int, kv["cnt"].split("->")[0].split("/"))) != prev_cnt:
-                return (i, "motion counters changed between calls"), stats
-            prev_cnt = tuple(map(int, c1.split("/")))
-            if f:
-                return (i, f), stats
-            continue
-        n = int(kv["n"])
-        q = parse_q(kv["q"])
-        v = int(kv["v"])
-        stats["calls"] += 1
-        if n >= 3:
-            stats["nontrivial"] += 1
-        if box:
-            inv = set(x for x in parse_q(kv.get("inv", "-")) if x is not None)
-            stats["box"] += 1
-        if nopath:
-            # no curve exists: the call must answer false and (F75) count one invalid motion; the lastValid clause
-            # does not apply (nothing to interpolate), neither form may claim validity
-            stats["nopath"] += 1
-            c0, c1 = kv["cnt"].split("->")
-            a0, b0 = map(int, c0.split("/"))
-            a1, b1 = map(int, c1.split("/"))
-            if prev_cnt is not None and (a0, b0) != prev_cnt:
-                return (i, "motion counters changed between calls"), stats
-            prev_cnt = (a1, b1)
-            if v != 0:
-                return (i, "%s returned 1 although getPath found no path between the states" % op), stats
-            if (a1 - a0, b1 - b0) == (0, 0):
-                stats["f75"].append(i)      # reported by judge() as its own narrow record (F75)
-                stats["narrow"].append((i, "dubins3d-nopath-uncounted"))
-            elif (a1 - a0, b1 - b0) != (0, 1):
-                return (i, "%s returned 0 (no path) and advanced valid/invalid counters by +%d/+%d" % (op, a1 - a0, b1 - b0)), stats
-            continue
-        if int(kv["amb"]) > 0:
-            stats["ambiguous"] += 1   # two subdivision points are the same state: the index predicate is not
-            continue                  # a predicate on states; excluded (counted)
-        a, b = parse_states(t[1:], nreals)
-        if not hinted:
-            want_n = spec_seg(tree, cfg, a, b)
-            if n != want_n:
-                return (i, "validSegmentCount=%d, factor*ceil(distance/longestValidSegment) (max over components) is %d"
-                        % (n, want_n)), stats
-        elif segs is not None and i in segs:
-            dist, L = segs[i]
-            want_n = cfg["f"][0] * int(math.ceil(dist / L))
-            if n != want_n:
-                return (i, "validSegmentCount=%d, factor*ceil(distance/longestValidSegment) is %d" % (n, want_n)), stats
-        idx = list(range(1, n + 1)) if n >= 1 else [0]
-        if any(x is None for x in q):
-            return (i, "isValid was asked about a state that is neither s2 nor interpolate(s1,s2,j/n) for any j"), stats
-        if any(x not in idx for x in q):
-            return (i, "isValid was asked about subdivision index %s outside [1,%d]" % ([x for x in q if x not in idx][0], n)), stats
-        invalid_here = [j for j in idx if j in inv]
-        ev = 0 if invalid_here else 1
-        if v != ev:
-            return (i, "%s returned %d but subdivision points %s are %s" % (
-                op, v, invalid_here[:4] if invalid_here else "1..%d" % n, "invalid" if invalid_here else "all valid")), stats
-        if ev == 1 and set(q) != set(idx):
-            return (i, "valid verdict although subdivision point(s) %s were never checked" % sorted(set(idx) - set(q))[:4]), stats
-        key = (" ".join(t[1:]), frozenset(inv))
-        pair_verdicts.setdefault(key, {})[op] = v
-        if len(set(pair_verdicts[key].values())) > 1:
-            return (i, "the two forms of checkMotion disagree on the same pair and predicate: %s" % pair_verdicts[key]), stats
-        if op in ("cm3", "cm3n"):
-            if ev == 1:
-                if kv["lv"] != "untouched" or kv["lvs"] not in ("untouched", "null"):
-                    return (i, "lastValid was written although the motion is valid (lv=%s lvs=%s)" % (kv["lv"], kv["lvs"])), stats
-            elif n == 0:
-                # zero-length motion, end state invalid: one point, so the last valid fraction is 0 and the state is
-                # interpolate(s1,s2,0) = s1.  The former as-coded value (double)(0-1)/(double)0 = -inf is reported under its own
-                # narrow record (F124, fixed in /repo e0f5863f3: nothing suppresses it any more); any other wrong value fails too.
-                stats["n0_invalid"] += 1
-                if kv["lv"] == "untouched":
-                    return (i, "motion invalid (s1 == s2, end state invalid) but lastValid.second was not written"), stats
-                if kv["lv"] == NEG_INF_BITS:
-                    stats["narrow"].append((i, "n0-fraction-minus-infinity"))
-                elif kv["lv"] != f2bits(0.0):
-                    return (i, "zero-length motion with an invalid end state: last-valid fraction %r, must be 0" % bits2f(kv["lv"])), stats
-                if op == "cm3" and kv["lvs"] != "eq":
-                    return (i, "s1 == s2 with an invalid end state: lastValid.first is not interpolate(s1,s2,lastValid.second) "
-                               "(lvs=%s): the returned last-valid state is not a state of the motion" % kv["lvs"]), stats
+        # cm2 / cm3 / cm3n, possibly with a nested call interleaved at one of its validity questions
+        parts = o.split(" || nested")
+        kv = kvline(parts[0])
+        mid = (0, 0)
+        if len(parts) > 1 and nest is None:
+            return (i, "a nested-call report on a call that had none armed"), stats
+        if nest is not None:
+            if len(parts) != 2:
+                return (i, "a nested call was armed but the call line does not report on it"), stats
+            asked = len([x for x in kv.get("q", "-").split(",") if x not in ("-", "")])
+            if parts[1].strip() == "=none":
+                stats["nested_not_reached"] += 1
+                if asked >= nest["k"]:
+                    return (i, "the outer call asked %d validity questions but the nested call armed at question %d never ran"
+                            % (asked, nest["k"])), stats
             else:
-                js = invalid_here[0]
-                if kv["lv"] == "untouched":
-                    return (i, "motion invalid but lastValid.second was not written"), stats
-                f = bits2f(kv["lv"])
-                if not (0.0 <= f < 1.0):
-                    return (i, "last-valid fraction %r outside [0,1)" % f), stats
-                if kv["lv"] != f2bits((js - 1) / n):
-                    return (i, "last-valid fraction %r; points 1..%d are valid and %d is not, so it must be %d/%d"
-                            % (f, js - 1, js, js - 1, n)), stats
-                if op == "cm3" and kv["lvs"] != "eq":
-                    return (i, "lastValid.first is not interpolate(s1,s2,lastValid.second) (lvs=%s)" % kv["lvs"]), stats
-        c0, c1 = kv["cnt"].split("->")
-        a0, b0 = map(int, c0.split("/"))
-        a1, b1 = map(int, c1.split("/"))
+                kvn = kvline(parts[1])
+                stats["nested_run"] += 1
+                (na0, nb0), (na1, nb1) = cnt_of(kvn)
+                mid = (na1 - na0, nb1 - nb0)
+                if (na0, nb0) != cnt_of(kv)[0]:
+                    return (i, "motion counters changed between the start of the outer call and the nested call"), stats
+                # the nested call is judged exactly like a call made on its own: its own pair, its own predicate
+                nnopath = (len(nest["hint"]) == 2 and nest["hint"][1] == 0) and cfg["space"] in D3
+                fn = cm_oracle(C, nest["form"], nest["states"], kvn, nest["inv"], False, nnopath, i)
+                if fn:
+                    return (i, "NESTED call (run by the validity checker at question %d of the outer call): %s" % (nest["k"], fn)), stats
+            nest = None
+        (a0, b0), (a1, b1) = cnt_of(kv)
         if prev_cnt is not None and (a0, b0) != prev_cnt:
             return (i, "motion counters changed between calls"), stats
         prev_cnt = (a1, b1)
-        if (a1 - a0, b1 - b0) != ((1, 0) if v else (0, 1)):
-            return (i, "%s returned %d and advanced valid/invalid counters by +%d/+%d (must be exactly one, by one)"
-                    % (op, v, a1 - a0, b1 - b0)), stats
+        f = cm_oracle(C, op, t[1:], kv, inv, box, nopath, i, mid, segs.get(i) if segs else None)
+        if f:
+            if len(parts) > 1 and parts[1].strip() != "=none":
+                f = "OUTER call (another checkMotion ran inside one of its validity questions): " + f
+            return (i, f), stats
     return None, stats
 
 
-def constrained_oracle(op, t, kv, inv, stats, i, pair_verdicts):
+def constrained_oracle(op, t, kv, inv, stats, i, pair_verdicts, mid=(0, 0)):
     """ConstrainedMotionValidator: the subdivision is the manifold traversal (indices 1..n-1) plus the end state (n).
     Deviations that are exactly one of the recorded findings F120-F122 go to stats["narrow"]; anything else fails."""
     n, v = int(kv["n"]), int(kv["v"])
@@ -366,9 +470,8 @@ def constrained_oracle(op, t, kv, inv, stats, i, pair_verdicts):
     pair_verdicts.setdefault(key, {})[op] = v
     if len(set(pair_verdicts[key].values())) > 1:
         return "the two forms of checkMotion disagree on the same pair and predicate: %s" % pair_verdicts[key]
-    c0, c1 = kv["cnt"].split("->")
-    a0, b0 = map(int, c0.split("/"))
-    a1, b1 = map(int, c1.split("/"))
+    (a0, b0), (a1, b1) = cnt_of(kv)
+    a1, b1 = a1 - mid[0], b1 - mid[1]
     if (a1 - a0, b1 - b0) == (0, 0):
         stats["narrow"].append((i, "constrained-uncounted"))
     elif (a1 - a0, b1 - b0) != ((1, 0) if v else (0, 1)):
@@ -773,6 +876,228 @@ def gen_lists(r, tier):
     return [("lists", lines)]
 
 
+# ------------------------------------------------------------------ round 10: histories and re-entrancy
+#   conf = (space, validator); every validator the engine drives
+ALL_CONFS = [("r1", "default"), ("rn", "default"), ("so2", "default"), ("se2", "default"), ("cmpd", "default"), ("cmpd2", "default"),
+             ("dubins", "default"), ("dubinssym", "default"), ("rs", "default"), ("dubins", "discrete"), ("rs", "discrete"),
+             ("owen", "default"), ("vana", "default"), ("vanaowen", "default"), ("proj", "default"), ("atlas", "default"), ("tb", "default")]
+
+
+def conf_cfg(r, space, validator):
+    if space in CSPACES:
+        return {"space": space, "validator": "default", "frac": 0.01, "lo": -2.0, "hi": 2.0, "dim": 1, "f": [1],
+                "rho": r.choice([0.05, 0.1])}
+    cfg = {"space": space, "validator": validator, "frac": r.choice([0.02, 0.05, 1.0 / 64]), "lo": -4.0, "hi": 4.0,
+           "dim": r.range(2, 4), "rho": r.choice([1.0, 0.5, 2.0])}
+    if space == "r1":
+        cfg.update({"frac": 1.0 / 1024, "lo": 0.0, "hi": 4096.0, "dim": 1})
+    _tree, _nreals, nf, _h = space_info(cfg)
+    cfg["f"] = [r.range(1, 2) for _ in range(nf)]
+    return cfg
+
+
+def conf_pair(r, cfg, short=False):
+    """a pair of states of the configuration's space (mostly a few to a few dozen segments long)"""
+    space = cfg["space"]
+    tree, nreals, _nf, hinted = space_info(cfg)
+    if space in CSPACES:
+        th, ph = r.uniform(0.3, math.pi - 0.3), r.uniform(-math.pi, math.pi)
+        a = [math.sin(th) * math.cos(ph), math.sin(th) * math.sin(ph), math.cos(th)]
+        t1 = [math.cos(th) * math.cos(ph), math.cos(th) * math.sin(ph), -math.sin(th)]
+        ang = r.uniform(cfg["rho"] * 1.5, 0.8)
+        return a, [x * math.cos(ang) + y * math.sin(ang) for x, y in zip(a, t1)]
+    if space == "r1":
+        return [0.0 if r.chance(2, 3) else 4.0 * r.range(0, 20)], [4.0 * r.range(1, 40)]
+    if not hinted:
+        a = rnd_state(r, cfg, tree)
+        b = near_state(r, cfg, tree, a, cfg["frac"] * r.uniform(4, 40)) if r.chance(2, 3) else rnd_state(r, cfg, tree)
+        return a, b
+
+    def one():
+        xy = [r.uniform(-3.5, 3.5), r.uniform(-3.5, 3.5)]
+        yaw = r.uniform(-math.pi, math.pi - 1e-9)
+        if space == "owen":
+            return xy + [r.uniform(-1.0, 1.0), yaw]
+        if space in ("vana", "vanaowen"):
+            return xy + [r.uniform(-0.5, 0.5), r.uniform(-0.3, 0.3), yaw]
+        return xy + [yaw]
+    return one(), one()
+
+
+def fill_constrained_hints(ck, hbin, lines):
+    """constrained spaces: traversal length / arrival / isSatisfied / extra candidate of each call (outer and nested) are
+    read off a first run of the SAME sequence (an atlas grows while it is used)."""
+    o, rc, _e = run_harness(ck, hbin, lines)
+    if rc != 0 or o is None or len(o) != len(lines) - 1:
+        return lines
+    lines = list(lines)
+
+    def h4(part):
+        kv = kvline(part)
+        qq = kv["q"].split(",")
+        if qq and qq[-1] == "p":
+            qq = qq[:-1]
+        return [kv["n"], kv["reached"], kv["sat"], "1" if qq and qq[-1] == "x" else "0"]
+    for k in range(1, len(lines)):
+        op = lines[k].split()[0]
+        if op not in ("cm2", "cm3", "cm3n"):
+            continue
+        parts = o[k - 1].split(" || nested")
+        j = k - 1
+        while j >= 1 and lines[j].split()[0] in ("nest", "hint"):
+            if lines[j].startswith("hint"):
+                lines[j] = "hint " + " ".join(h4(parts[0]))
+            elif len(parts) > 1 and parts[1].strip() != "=none":
+                t = lines[j].split()
+                # ... <counted hint = 4 placeholders> <counted inv>: replace the four hint tokens
+                pos = 4
+                pos += 1 + int(t[pos])
+                pos += 1 + int(t[pos])
+                t[pos + 1:pos + 5] = h4(parts[1])
+                lines[j] = " ".join(t)
+            j -= 1
+    return lines
+
+
+def history_scripts(ck, hbin, r, tier):
+    """histories that RECONFIGURE the SpaceInformation between motion checks, for every validator: a new validity checker
+    object (pointer / function overload; the old one kept alive or destroyed), a new resolution (which only setup() makes
+    effective), new segment-count factors (effective at once), setup() again, a replaced motion validator (the library's
+    default via setMotionValidator(nullptr)+setup(), or a fresh DiscreteMotionValidator), resetMotionCounter.  Each
+    check is judged under the configuration in force when it is made."""
+    out = []
+    reps = 3 if tier == "thorough" else 1
+    for space, validator in ALL_CONFS * reps:
+        cfg = conf_cfg(r, space, validator)
+        tree, nreals, nf, hinted = space_info(cfg)
+        cons = space in CSPACES
+        steps = []          # ("op", line) | ("pair", a, b)
+        npairs = 0
+        want = 14 if tier == "thorough" else 7
+        if cons:
+            want = 8 if tier == "thorough" else 4
+        first = True
+        while npairs < want:
+            c = r.below(10)
+            if first or c >= 5:
+                steps.append(("pair",) + conf_pair(r, cfg))
+                npairs += 1
+                first = False
+                continue
+            k = r.below(9 if not cons else 5)
+            if k in (0, 1, 2):
+                steps.append(("op", "swapvc " + ("keep", "drop", "fn", "keep")[r.below(4)]))
+            elif k == 3:
+                steps.append(("op", "setup"))
+            elif k == 4:
+                kind = "default" if cons or space in D3 or r.chance(1, 2) else "discrete"
+                steps.append(("op", "setmv " + kind))
+                if r.chance(1, 3):
+                    steps.append(("op", "resetcnt"))
+            elif k in (5, 6):
+                steps.append(("op", "setfrac " + f2bits(r.choice([0.01, 0.02, 0.04, 0.05, 1.0 / 64, 1.0 / 128] if space != "r1"
+                                                               else [1.0 / 512, 1.0 / 1024, 1.0 / 2048]))))
+                if r.chance(1, 2):
+                    steps.append(("op", "setup"))
+            elif k == 7:
+                steps.append(("op", "setfac %d %d" % (r.below(nf), r.range(1, 3))))
+            else:
+                steps.append(("op", "resetcnt"))
+        for s in steps:
+            if s[0] == "op":
+                ck.count("history op:" + s[1].split()[0] + (" " + s[1].split()[1] if s[1].split()[0] in ("swapvc", "setmv") else ""))
+        # first pass on the real code: the segment count of every pair under the configuration in force at that point
+        pre = [header(cfg), "invalid idx"]
+        for s in steps:
+            pre.append(s[1] if s[0] == "op" else ("cm3 %s %s" if cons else "seg %s %s") % (st(s[1]), st(s[2])))
+        o, rc, _e = run_harness(ck, hbin, pre)
+        tag = "history-%s-%s" % (space, validator)
+        if rc != 0 or o is None or len(o) != len(pre) - 1:
+            out.append((tag, pre, None))      # judged as is: the oracle reports the crash
+            continue
+        lines = [header(cfg)]
+        for s, ol in zip(steps, o[1:]):
+            if s[0] == "op":
+                lines.append(s[1])
+                continue
+            kv = kvline(ol)
+            n = int(kv["n"])
+            if n > 400:
+                continue
+            hint = None
+            if cons:
+                hint = "hint 0 1 1 0"
+            elif space in ("owen", "vanaowen"):
+                hint = "hint %d %d" % (n, int(kv.get("path", "1")))
+            for kind in [r.choice(["none", "none", "end", "single", "multi", "first"]) for _ in range(2)]:
+                lines.append("invalid idx" + "".join(" %d" % j for j in sorted(rnd_inv(r, n, kind))))
+                for f in (("cm2", "cm3", "cm3n") if r.chance(1, 4) else ("cm2", "cm3")):
+                    if hint:
+                        lines.append(hint)
+                    lines.append("%s %s %s" % (f, st(s[1]), st(s[2])))
+        if cons:
+            lines = fill_constrained_hints(ck, hbin, lines)
+        out.append((tag, lines, None))
+    return out
+
+
+def nest_scripts(ck, hbin, r, tier):
+    """re-entrancy: the validity checker, at its k-th question of an (outer) checkMotion call, runs a complete nested
+    checkMotion (either form) of ANOTHER motion on the same SpaceInformation -- in the same thread or in a second, joined
+    thread -- before it answers.  checkMotion is const and documented thread safe: the outer call's verdict, lastValid
+    and counter increment must be what they are for the outer motion alone, the nested call's likewise.  Every validator
+    except the two atlas-based constrained spaces (their traversals change the atlas, i.e. the next traversal)."""
+    out = []
+    reps = 3 if tier == "thorough" else 1
+    for space, validator in [c for c in ALL_CONFS if c[0] not in ("atlas", "tb")] * reps:
+        cfg = conf_cfg(r, space, validator)
+        tree, nreals, nf, hinted = space_info(cfg)
+        cons = space in CSPACES
+        pairs = [(conf_pair(r, cfg), conf_pair(r, cfg)) for _ in range((6 if tier == "thorough" else 3) if not cons else 2)]
+        pre = [header(cfg), "invalid idx"]
+        for (a, b), (c, d) in pairs:
+            pre += [("cm3 %s %s" if cons else "seg %s %s") % (st(a), st(b)), ("cm3 %s %s" if cons else "seg %s %s") % (st(c), st(d))]
+        o, rc, _e = run_harness(ck, hbin, pre)
+        tag = "nest-%s-%s" % (space, validator)
+        if rc != 0 or o is None or len(o) != len(pre) - 1:
+            out.append((tag, pre, None))
+            continue
+        lines = [header(cfg)]
+        for p, ((a, b), (c, d)) in enumerate(pairs):
+            kvo, kvn = kvline(o[1 + 2 * p]), kvline(o[2 + 2 * p])
+            n, nn = int(kvo["n"]), int(kvn["n"])
+            if n > 300 or nn > 300 or n < 2:
+                continue
+            hint = nh = None
+            nhint = []
+            if cons:
+                hint, nhint = "hint 0 1 1 0", [0, 1, 1, 0]
+            elif space in ("owen", "vanaowen"):
+                hint, nhint = "hint %d %d" % (n, int(kvo.get("path", "1"))), [nn, int(kvn.get("path", "1"))]
+            for okind, nkind in [("none", "single"), ("none", "none"), ("single", "multi"), ("end", "first")]:
+                oinv = rnd_inv(r, n, okind)
+                ninv = rnd_inv(r, nn, nkind)
+                for oform in ("cm2", "cm3"):
+                    # the question at which the nested call is made: the first, an early one, the last one the outer call
+                    # asks when all are valid, one beyond it (the nested call then never runs)
+                    for k in sorted(set([1, 2, r.range(1, max(n, 1)), n, n + 2]))[:(5 if tier == "thorough" else 3)] \
+                            if okind == "none" else [r.range(1, 3)]:
+                        nform = r.choice(["cm2", "cm3", "cm3", "cm3n"])
+                        mode = r.choice(["same", "thread"])
+                        ck.count("nest: outer %s, nested %s, %s" % (oform, nform, mode))
+                        lines.append("invalid idx" + "".join(" %d" % j for j in sorted(oinv)))
+                        if hint:
+                            lines.append(hint)
+                        lines.append("nest %d %s %s %s %s %d%s %d%s" % (
+                            k, mode, nform, st(c), st(d), len(nhint), "".join(" %d" % x for x in nhint),
+                            len(ninv), "".join(" %d" % j for j in sorted(ninv))))
+                        lines.append("%s %s %s" % (oform, st(a), st(b)))
+        if cons:
+            lines = fill_constrained_hints(ck, hbin, lines)
+        out.append((tag, lines, None))
+    return out
+
+
 # ------------------------------------------------------------------ the check
 def harness_env(script):
     # OwenStateSpace::getPath leaks its scratch Dubins state on some return paths (seen by LeakSanitizer on the
@@ -803,6 +1128,12 @@ def split_groups(script):
     groups, cur = [], []
     for ln in script[1:]:
         op = ln.split()[0]
+        if op in RECONF_OPS:
+            if cur:
+                groups.append(cur)
+            groups.append([ln])
+            cur = []
+            continue
         if op == "invalid" and cur and cur[-1].split()[0] not in ("invalid", "hint"):
             groups.append(cur)
             cur = []
@@ -913,15 +1244,24 @@ def account(ck, tag, script, impl, stats):
     ck.count("calls of the ConstrainedMotionValidator", stats["constrained"])
     ck.count("excluded:atlas/tb traversal not decodable (atlas changed between reference and call)", stats.get("unstable_traversal", 0))
     ck.count("compared only:constrained call with an invalid start state", stats.get("start_invalid", 0))
+    ck.count("reconfiguration ops between checks", stats.get("reconf", 0))
+    ck.count("nested calls run inside a validity question", stats.get("nested_run", 0))
+    ck.count("nested call armed beyond the outer call's last question (never runs)", stats.get("nested_not_reached", 0))
     cfg = parse_header(script[0])
     last_inv = ""
+    last_nest = ""
     for i, ln in enumerate(script[1:]):
         op = ln.split()[0]
         ck.count("op:" + op)
         if op == "invalid":
             last_inv = ln
+        if op == "nest":
+            last_nest = ln
         if op in ("cm2", "cm3", "cm3n") and i < len(impl) and impl[i].startswith("v="):
-            kv = kvline(impl[i])
+            kv = kvline(impl[i].split(" || nested")[0])
+            if " || nested v=" in impl[i]:
+                kn = kvline(impl[i].split(" || nested")[1])
+                ck.case((script[0], ln, last_inv, last_nest), int(kn["n"]) >= 3)
             n = int(kv["n"])
             ck.case((script[0], ln, last_inv), n >= 3)
             ck.count("space:%s/%s" % (cfg["space"], cfg["validator"]))
@@ -1227,6 +1567,10 @@ def run(ck):
     for tag, s, segs in proj_scripts(ck, hbin, r.fork("proj"), ck.tier):
         jobs.append((tag, s, segs))
     for tag, s, segs in short_scripts(ck, hbin, r.fork("short"), ck.tier):
+        jobs.append((tag, s, segs))
+    for tag, s, segs in history_scripts(ck, hbin, r.fork("history"), ck.tier):
+        jobs.append((tag, s, segs))
+    for tag, s, segs in nest_scripts(ck, hbin, r.fork("nest"), ck.tier):
         jobs.append((tag, s, segs))
     tb_wrapper_check(ck, hbin)
     bad = 0
